@@ -1842,6 +1842,33 @@ def check_C09_spans(in_view, out_view, er):
     # (temporary *names* recur in every statement of a block; a node shared between statements would resolve the later
     # uses to the earlier statement). A user identifier of that name trivially lies inside its own statement.
     bad = []
+    in_stmt_spans = {}
+
+    def stmt_span(v):
+        if v.get('_t') == 'Stmt' and kind(v) not in (None, '?', 'Block') and isinstance(v.get('_0'), dict):
+            inner = v['_0']
+            if kind(v) == 'Decl' and isinstance(inner.get('_0'), dict):
+                inner = inner['_0']
+            sp = inner.get('span')
+            if isinstance(sp, dict) and sp.get('_t') == 'Span' and not span_is_dummy(sp):
+                return sp
+        return None
+
+    def index_in(v):
+        if isinstance(v, (list, tuple)):
+            for x in v:
+                index_in(x)
+            return
+        if not isinstance(v, dict) or is_lazy(v):
+            return
+        sp = stmt_span(v)
+        if sp is not None:
+            acc = in_stmt_spans.setdefault(span_key(sp), set())
+            spans_in(v, acc)
+        for x in v.values():
+            index_in(x)
+
+    index_in(in_view)
 
     def walk(v, stmt):
         if isinstance(v, (list, tuple)):
@@ -1850,21 +1877,15 @@ def check_C09_spans(in_view, out_view, er):
             return
         if not isinstance(v, dict) or is_lazy(v):
             return
-        if v.get('_t') == 'Stmt' and not is_lazy(v) and kind(v) not in (None, '?', 'Block') and isinstance(v.get('_0'), dict):
-            inner = v['_0']
-            if kind(v) == 'Decl' and isinstance(inner.get('_0'), dict):
-                inner = inner['_0']
-            sp = inner.get('span')
-            if isinstance(sp, dict) and sp.get('_t') == 'Span' and not span_is_dummy(sp):
-                stmt = sp
-        if v.get('_t') == 'Ident' and isinstance(v.get('span'), dict) and 'sym' in v and sym_is_temp(v['sym']) and stmt is not None:
-            sp = v['span']
-            try:
-                lo, hi, slo, shi = int(sp['lo']['0']), int(sp['hi']['0']), int(stmt['lo']['0']), int(stmt['hi']['0'])
-            except (TypeError, ValueError, KeyError):
-                lo = None
-            if lo is not None and not (lo == 0 and hi == 0) and not (slo <= lo and hi <= shi):
-                bad.append(((lo, hi), (slo, shi)))
+        sp = stmt_span(v)
+        if sp is not None:
+            stmt = span_key(sp)
+        if v.get('_t') == 'Ident' and isinstance(v.get('span'), dict) and 'sym' in v and sym_is_temp(v['sym']) and stmt in in_stmt_spans:
+            k = span_key(v['span'])
+            # spans are compared as the input's own (possibly unordered) tags: a position is "inside" a statement iff the
+            # input statement with that span contains a node carrying it
+            if k != dummy and k in sin and k not in in_stmt_spans[stmt]:
+                bad.append((k, stmt))
         for x in v.values():
             walk(x, stmt)
 
